@@ -120,10 +120,17 @@ func Main(args []string) error {
 			rec.Rows = append(rec.Rows, sqlzoo.Abs(row))
 		}
 		ncalls := 1 + r.Intn(6)
+		if i%20 == 0 {
+			// a crowd: hundreds of callers in one batch, most of them with a filter somebody else has too
+			ncalls = 150 + r.Intn(400)
+		}
 		filters := make([]sqlgen.Filter, ncalls)
 		for c := 0; c < ncalls; c++ {
 			f, a := sqlzoo.RandomFilter(r, cols)
-			if c > 0 && r.Intn(5) == 0 { // an equal filter twice
+			if c >= 6 && ncalls > 100 && r.Intn(10) != 0 { // the crowd repeats earlier filters
+				k := r.Intn(c)
+				f, a = filters[k], rec.Calls[k].Filter
+			} else if c > 0 && r.Intn(5) == 0 { // an equal filter twice
 				f, a = filters[c-1], rec.Calls[c-1].Filter
 			}
 			filters[c] = f
